@@ -21,7 +21,7 @@ PROPS = {
              eps=('select', 'extra'), cats=('ret', 'status'), views=('nrWinning', 'winIds', 'totalTickets'),
              coq=('Proofs/Shuffle.v', 'Proofs/Select.v', 'Proofs/GuaranteedLoop.v', 'Proofs/Leftover.v')),
     'C04': P('run_while split law lifted to every resumable endpoint; seeds consumed only by the first call',
-             eps=SEL, cats=('ret', 'status'), rng=True, views=('flags',), coq=('Proofs/Loop.v', 'Proofs/Resume.v', 'Proofs/Resume2.v', 'Proofs/Resume3.v', 'Proofs/Resume4.v', 'Proofs/Interleave.v', 'Proofs/InterleaveGt.v', 'Proofs/LifecycleNoisy.v')),
+             eps=SEL, cats=('ret', 'status'), rng=True, views=('flags',), coq=('Proofs/Loop.v', 'Proofs/Resume.v', 'Proofs/Resume2.v', 'Proofs/Resume3.v', 'Proofs/Resume4.v', 'Proofs/Interleave.v', 'Proofs/InterleaveGt.v', 'Proofs/InterleaveNft.v', 'Proofs/LifecycleNoisy.v')),
     'C05': P('sparse Fisher-Yates refines the textbook algorithm; bijection; word stream of the rng',
              eps=('select',), cats=('ret',), rng=True, views=('winIds',), coq=('Proofs/Shuffle.v', 'Proofs/Rng.v'),
              gentable=('const_usize_bytes', 'const_hash_len', 'const_first_ticket_id')),
